@@ -40,6 +40,8 @@ let rec parse_val (toks : ostring list ref) : value =
     | 'M' -> (match split_colon body with
         | [ns; off] | [ns; off; _] -> VTime { t_ns = z_of_dec ns; t_off = z_of_dec off }   (* a zone name, if any, is not part of the model's time *)
         | _ -> failwith "M")
+    | 'Z' when body = "n" -> VArr []      (* a nil typed slice: an empty array *)
+    | 'Y' when body = "n" -> VMap []      (* a nil typed map: an empty map *)
     | 'A' | 'Z' -> let n = int_of_string body in VArr (List.init n (fun _ -> parse_val toks))
     | 'O' | 'Y' ->
       let n = int_of_string body in
